@@ -15,6 +15,9 @@ TRun   == /\ Is("Run") /\ Adv /\ UNCHANGED <<prog, monad>>
           /\ LET r == Eval(prog, monad) IN
              /\ Ev.ok = r.ok /\ Ev.v = r.v /\ Ev.err = r.e
              /\ Ev.log = r.log
+          \* FoldM / Traverse stop pulling their source at the first failure: at most one element beyond those the step
+          \* function was called for (pulled = -1: the program has no counted source)
+          /\ Ev.pulled <= Ev.stepcalls + 1
 TEnd   == Is("End") /\ Adv /\ UNCHANGED <<prog, monad>>
 \* the unit is total (EffectSpec!U(x) is a success for every x): also for the nil value of a slice, pointer, map, interface,
 \* func or chan payload type, for Map to nil, and FlatMap(unit(nil), f) calls f with nil (left identity)
